@@ -7,6 +7,8 @@
 
 package shmipc
 
+import "encoding/binary"
+
 // ---------------------------------------------------------------------------
 // C04 / C05: the IO queue (queue.go)
 // ---------------------------------------------------------------------------
@@ -270,6 +272,15 @@ package shmipc
 //@   requires s != nil && len(hdr) >= 8
 //@   preserves sessOK(s)
 //@   ensures  r0 == 8 && !r1
+//@   ghost var lastIdle bool = false
+//@   ghost var unknownOpen bool = false
+//@   ghost var recycledUnknown bool = false
+//@   at call (*queue).markNotWorking#0 ghost lastIdle := r0
+//@   at call (*Session).handleStreamMessage#0 hint[C07] a1 == stream && a2.offset == ele.offsetInShmBuf && a3 == state && state == ele.status % 256
+//@   at call (*Session).getStream#0 hint[C07] a1 == ele.seqID && a2 == state
+//@   at call (*bufferManager).readBufferSlice#0 hint[C09] a1 == ele.offsetInShmBuf && stream == nil && state == 0
+//@   at call (*bufferManager).recycleBuffers#0 hint[C09] a1 == slice
+//@   exit[C05] r2 == nil ==> lastIdle        // the consumer leaves only through a re-check that found the queue empty (or with an error that ends the session)
 //@   loop 0 invariant sessOK(s)
 //@   loop 1 invariant sessOK(s)
 
@@ -279,9 +290,6 @@ package shmipc
 //@   ensures  0 <= consumed && consumed <= len(buf)
 //@   loop 0 invariant 0 <= consumed && consumed <= len(buf) && sessOK(s)
 
-//@ func (*Session).getStream
-//@   preserves sessOK(s)
-
 //@ func (*Session).getStreamById
 //@   preserves sessOK(s)
 
@@ -290,9 +298,6 @@ package shmipc
 //@   requires stream != nil
 
 // the data path below the event handlers (verified under C06/C08/C09, used here by contract only)
-//@ func (*Stream).fillDataToReadBuffer
-//@   modifies heap
-
 //@ func newStream
 //@   requires session != nil
 //@   ensures  result != nil && fresh(result) && result.session == session && result.id == id && result.recvBuf != nil && result.sendBuf != nil && result.pendingData != nil
@@ -916,12 +921,16 @@ func lemmaCreateThenMapQueue(data []byte, cap uint32) {
 //@   at call? (*queue).put#0 ghost notified := notified || r0 == nil
 //@   at call? (*Session).waitForSend#0 ghost notified := true
 //@   exit[C10] cbs <= 1 && (won ==> cleaned)
+//@   ghost var putOK bool = false
+//@   ghost var woke bool = false
+//@   at call? (*queue).put#0 hint[C07] a1.seqID == s.id && a1.status == 1
+//@   at call? (*queue).put#0 ghost putOK := r0 == nil
+//@   at call? (*Session).wakeUpPeer#0 ghost woke := true
+//@   exit[C05] putOK ==> woke
 //@   exit[C10] won && oldState == 0 && !sawSessionClosed ==> notified                  // a local close of an open stream is propagated to the peer
 //@   exit[C10] won && oldState == 2 && !old(s.remoteClosed) ==> notified             // ... also when Close() was deferred during OnData (state halfClosed locally): fails today, finding F6
 //@   modifies heap
 
-//@ func (*Stream).clean
-//@   modifies heap
 //@ func (*Session).waitForSend
 //@   modifies heap
 
@@ -1151,3 +1160,65 @@ func lemmaUpdateThenNew(s *bufferSlice) {
 //@ func (*Stream).getCallbacks
 //@   trusted  loads the callback through an atomic unsafe.Pointer (not modelled)
 //@   modifies nothing
+
+// C09: clean releases pending data and both buffers, whatever the stream's state
+//@ func (*Stream).clean
+//@   ghost var cleared bool = false
+//@   ghost var recvRecycled bool = false
+//@   ghost var sendRecycled bool = false
+//@   ghost var rb int = s.recvBuf
+//@   ghost var sb int = s.sendBuf
+//@   at call? (*pendingData).clear#0 ghost cleared := a0 == s.pendingData
+//@   at call? (*linkedBuffer).recycle#0 ghost recvRecycled := recvRecycled || a0 == rb
+//@   at call? (*linkedBuffer).recycle#1 ghost recvRecycled := recvRecycled || a0 == rb
+//@   at call? (*linkedBuffer).recycle#0 ghost sendRecycled := sendRecycled || a0 == sb
+//@   at call? (*linkedBuffer).recycle#1 ghost sendRecycled := sendRecycled || a0 == sb
+//@   exit[C09] cleared && recvRecycled && sendRecycled
+//@   modifies heap
+
+// C09: data that arrives for a stream this end already closed is released at once
+//@ func (*Stream).fillDataToReadBuffer
+//@   ghost var closedSeen bool = false
+//@   ghost var cleared bool = false
+//@   ghost var recycled bool = false
+//@   at call (*Stream).getStreamState#0 ghost closedSeen := r0 == 1
+//@   at call? (*pendingData).clear#0 ghost cleared := true
+//@   at call? (*linkedBuffer).recycle#0 ghost recycled := true
+//@   exit[C09] closedSeen ==> cleared && recycled
+//@   modifies heap
+
+//@ stable Stream.pendingData, Stream.recvBuf, Stream.sendBuf, Stream.id, Stream.session
+
+// C07 (c): dispatch by id - an existing stream is found under exactly the id of the element; a new one is
+// registered under that id before anybody can see it
+//@ func (*Session).getStream
+//@   preserves sessOK(s)
+//@   at call? newStream#0 hint[C07] a1 == id
+//@   at call? OnNewStream#0 hint[C07] stream.id == id && mapGet(s.streams, id) == stream && mapHas(s.streams, id)
+//@   ensures[C07] old(mapHas(s.streams, id)) ==> stream == old(mapGet(s.streams, id))
+//@   ensures[C07] !old(mapHas(s.streams, id)) && (s.isClient || state != 0) ==> stream == nil
+
+// C07 (a): what the encoders put on the wire is what the decoders read back
+func lemmaFallbackEventRoundTrip(length int, version uint8, seqID uint32, status uint32) {
+	var f fallbackDataEvent
+	f.encode(length, version, seqID, status)
+	h := header(f[:headerSize])
+	gotLen, gotMagic, gotVersion, gotType := h.Length(), h.Magic(), h.Version(), h.MsgType()
+	gotID := binary.BigEndian.Uint32(f[8:12])
+	gotStatus := binary.BigEndian.Uint32(f[12:16])
+	_, _, _, _, _, _ = gotLen, gotMagic, gotVersion, gotType, gotID, gotStatus
+}
+
+//@ lemma lemmaFallbackEventRoundTrip
+//@   requires 0 <= length && length < 4294967296
+//@   exit     gotLen == length && gotMagic == 30552 && gotVersion == version && gotType == 3 && gotID == seqID && gotStatus == status
+
+func lemmaHeaderRoundTrip(h header, length uint32, version uint8, msgType eventType) {
+	h.encode(length, version, msgType)
+	gotLen, gotMagic, gotVersion, gotType := h.Length(), h.Magic(), h.Version(), h.MsgType()
+	_, _, _, _ = gotLen, gotMagic, gotVersion, gotType
+}
+
+//@ lemma lemmaHeaderRoundTrip
+//@   requires len(h) >= 8
+//@   exit     gotLen == length && gotMagic == 30552 && gotVersion == version && gotType == msgType
